@@ -23,3 +23,47 @@ def standin_conformance(prop, tier, seed, scratch, root):
 def standin_search(prop, tier, seed, scratch, root):
     import conformance
     return conformance.search(prop, tier, seed, scratch, root)
+
+
+def standin_cmdsearch(prop, tier, seed, scratch, root):
+    """random differential search over the command builder (names/arguments/lists) against the oracle port of MPD's tokenizer"""
+    import replay as RP, json
+    n = 20000 if tier != 'thorough' else 400000
+    rr = RP.run_bin('cmd_search', scratch, [str(seed + 1), str(n)], timeout=1500)
+    row = {'function': 'Command::{build,add_argument}, escape_argument, CommandList::render, Connection::{send,send_list} end to end',
+           'engine': 'native random differential search against the oracle port of MPD Tokenizer (replay/src/bin/cmd_search.rs, replay/src/mpdtok.rs)',
+           'label': 'bounded', 'cases': n, 'violations': []}
+    if not rr.get('ran'):
+        row['undecided'] = rr.get('reason', 'search did not run'); return row
+    try:
+        j = json.loads(rr.get('full_output', rr['output']).strip().split('\n')[-1])
+    except Exception:
+        row['undecided'] = 'search output unreadable: ' + rr.get('output', '')[-300:]; return row
+    if not rr['fails']:
+        row['result'] = 'no deviation'; row['distinct_nontrivial'] = j.get('distinct', 0)
+        row['bound'] = '%d random (name, arguments) cases over a 20-char alphabet incl. quotes, backslash, blanks, controls, NUL, LF, non-ASCII; every 5th also as a command list; seed %d' % (n, seed + 1)
+        return row
+    row['result'] = 'DEVIATION'; row['deviation'] = j
+    args = ['case', j['name_hex']] + list(j.get('args_hex', []))
+    rep = RP.run_bin('cmd_search', scratch, args); rep.pop('full_output', None)
+    row['violations'].append({'props': j.get('props', []), 'ob': 'command.search', 'fn': 'command builder', 'message': 'the real command builder deviates from the oracle: ' + j.get('why', ''),
+                              'where': 'mpd_protocol/src/command.rs', 'rendered': json.dumps(j)[:3000], 'input': {'name_hex': j['name_hex'], 'args_hex': j.get('args_hex')},
+                              'replayed': rep, 'replay_bin': 'cmd_search', 'replay_args': args})
+    return row
+
+
+def standin_literals(prop, tier, seed, scratch, root):
+    """the two framing literals are constants: executing them once decides them completely"""
+    import replay as RP
+    rr = RP.run_bin('cmd_search', scratch, ['literals'])
+    row = {'function': 'COMMAND_LIST_BEGIN / COMMAND_LIST_END (byte-string literals; Verus gives literals no meaning: contract C13.literal.* is assumed)',
+           'engine': 'execution of the constants through CommandList rendering (complete for a constant)', 'label': 'constant check', 'cases': 2, 'violations': []}
+    if not rr.get('ran'):
+        row['undecided'] = rr.get('reason', 'did not run'); return row
+    row['result'] = 'match' if not rr['fails'] else 'MISMATCH'
+    if rr['fails']:
+        rr.pop('full_output', None)
+        row['violations'].append({'props': ['C13', 'C07'], 'ob': 'C13.literal', 'fn': 'CommandList::render', 'message': 'command list framing literals differ from the protocol text',
+                                  'where': 'mpd_protocol/src/command.rs', 'rendered': rr.get('output', ''), 'input': {'list': ['foo', 'bar x']}, 'replayed': rr,
+                                  'replay_bin': 'cmd_search', 'replay_args': ['literals']})
+    return row
